@@ -348,6 +348,25 @@ def side_by_side(ctx, si, payload):
     cfgts = list(payload["cfgs"])
     cfgts.append((cfgts[0][0] * 1.7 + 3.0,) + tuple(cfgts[0][1:3]) + (0.3, None, None))
     objs = [(c_, RegionGeom(make_cfg(*c_))) for c_ in cfgts]
+    # ---- all objects thrown first, positions asked afterwards, interleaved: each object reports the
+    #      positions of its own kept trajectories
+    us_ = [rng.uniform(0.02, 0.98, (4, 1500)) for _ in objs]
+    try:
+        for (c_, g_), u_ in zip(objs, us_):
+            g_.throw(u_.copy())
+        for s_km in (0.0, 50.0):
+            for (c_, g_), u_ in zip(objs, us_):
+                nk_ = int(np.sum(g_.event_mask))
+                got = g_.find_lat_long_along_traj(np.full(nk_, s_km))
+                g_ref = RegionGeom(make_cfg(*c_))
+                g_ref.throw(u_.copy())
+                want = g_ref.find_lat_long_along_traj(np.full(nk_, s_km))
+                ctx.count("side-by-side", nk_)
+                if not all(np.asarray(a).shape == np.asarray(b).shape and np.asarray(a).tobytes() == np.asarray(b).tobytes() for a, b in zip(got, want)):
+                    ctx.violation("along-traj:interleaved", f"altitude {c_[0]} km: with {len(objs)} geometry objects thrown first and asked for positions afterwards, the position at s={s_km} km of kept trajectory 0 is (lat, lon) = ({np.asarray(got[0])[0] if nk_ else None!r}, {np.asarray(got[1])[0] if nk_ else None!r}) rad; an object used on its own gives ({np.asarray(want[0])[0] if nk_ else None!r}, {np.asarray(want[1])[0] if nk_ else None!r})", {"cfg": c_, "s": s_km, "objects_alive": len(objs)})
+                    break
+    except Exception as e:
+        ctx.exception("raises", "throw / find_lat_long_along_traj raised with several geometry objects alive", e, {})
     for c_, g_old in objs:
         u = rng.uniform(0, 1, (4, 3000))
         u[3, :4] = [0.0, 1.0, 0.5, 1e-9]
